@@ -1,0 +1,28 @@
+//go:build verif
+
+package main
+
+// Contracts for govc, the contract verifier under /verif (see /verif/DESIGN.md).
+// Compiled only with -tags verif; comment-only.
+
+//@ func errorf(format, v)
+//@   noreturn                                                                                                        [C15]
+
+//@ func generate(out)
+//@   requires out != nil
+//@   call fmt.Fprintf#2 requires arg1 == "# created: %s\n"                                                          [C15]
+//@   call fmt.Fprintf#3 requires arg1 == "# public key: %s\n"                                                       [C15]
+//@   call fmt.Fprintf#4 requires arg1 == "%s\n"                                                                     [C15]
+//@   ensures#delivered calls("fmt.Fprintf",2) == old(calls("fmt.Fprintf",2)) + 1 && lasterr("fmt.Fprintf",2) == nil && calls("fmt.Fprintf",3) == old(calls("fmt.Fprintf",3)) + 1 && lasterr("fmt.Fprintf",3) == nil && calls("fmt.Fprintf",4) == old(calls("fmt.Fprintf",4)) + 1 && lasterr("fmt.Fprintf",4) == nil   [C15]
+
+//@ func convert(in, out)
+//@   requires in != nil && out != nil
+//@   loop 1 invariant#written -1 <= rangeindex && rangeindex < len(ids) && calls("fmt.Fprintf",1) == old(calls("fmt.Fprintf",1)) + rangeindex + 1 && lasterr("fmt.Fprintf",1) == nil   [C15]
+//@   call fmt.Fprintf#1 requires arg1 == "%s\n" && same(arg0, out)                                                  [C15]
+//@   ensures#delivered len(ids) >= 1 && calls("fmt.Fprintf",1) == old(calls("fmt.Fprintf",1)) + len(ids) && lasterr("fmt.Fprintf",1) == nil   [C15]
+
+//@ func main()
+//@   nosafety
+//@   call os.OpenFile#1 requires arg0 == outFlag && arg1 == 193 && arg2 == 384                                      [C15]
+//@   ensures#closed calls("os.OpenFile",1) == old(calls("os.OpenFile",1)) + 1 ==> calls("$2:Close",1) == old(calls("$2:Close",1)) + 1 && lasterr("$2:Close",1) == nil   [C15]
+//@   ensures#ran !versionFlag ==> calls("generate",1) + calls("convert",1) == old(calls("generate",1)) + old(calls("convert",1)) + 1   [C15]
